@@ -300,6 +300,44 @@ def stray_writes_of(V, call_spec):
     return int(n), int(first)
 
 
+def team_outputs(V, call_spec, nthreads, reported_max, poison):
+    """Run ONE kernel call (a vt.sani.Call) on the vrt runtime with a team of `nthreads` logical threads (default schedule: each thread
+    runs to its next barrier in turn) while omp_get_max_threads() reports `reported_max` (0: the team size), output arrays pre-filled
+    with `poison`.  Returns (ret, [io/out arrays after the call]) or None when the call does not fit the trampoline."""
+    L = V.L
+    arrays, ints, dbls, floats_at, outs = [], [], [], [], []
+    for a in call_spec.args:
+        if a[0] == "a":
+            arr = a[1].copy()
+            if a[2] == "out":
+                arr.view(np.uint8).reshape(-1)[:] = poison
+            arrays.append(arr)
+            ints.append(arr)
+            if a[2] in ("io", "out"):
+                outs.append((a, arr))
+        elif a[0] == "i":
+            ints.append(a[1])
+        else:
+            if a[0] == "f":
+                floats_at.append(len(dbls))
+            dbls.append(a[1])
+    if len(ints) > 12 or len(dbls) > 8:
+        return None
+    V.register(*arrays)
+    call = V.kernel(call_spec.kernel, ints, dbls, tuple(floats_at), ret=("d" if call_spec.ret == "d" else "i"))
+    L.vrt_report_max_threads(int(reported_max))
+    try:
+        V.set_filter([])
+        r = V.run(call, int(nthreads), [])
+    finally:
+        L.vrt_report_max_threads(0)
+    res = []
+    for a, arr in outs:
+        prom = a[3]
+        res.append(np.array(arr.reshape(-1)[prom(r["ret"], arr)]) if prom is not None else arr)
+    return (None if call_spec.ret == "v" else r["ret"]), res, r["status"]
+
+
 def callers_interfere(V, spec_a, spec_b, bound=2, max_exec=100000):
     """Two complete kernel calls (vt.sani.Call objects, kernels declared `threadsafe` so that f2py releases the GIL) run as two
     logical threads: explore every interleaving at the words both touch (within `bound` preemptions); each call must leave in its
